@@ -5,6 +5,11 @@ ROOT = os.path.join(os.path.dirname(os.path.abspath(__file__)), "..")
 props = [json.loads(l) for l in open(os.path.join(ROOT, "properties.jsonl")) if l.strip()]
 
 CLAIMS = {
+    "C08": dict(
+        text="Lean 4 theorems over unbounded naturals (so every u8/u64/u128 value is covered): update_false_iff — the model of update_extensions returns false iff hop count + 1 > limit, or age + residence time > lifetime (ms), or creation time ≠ 0 and creation time + lifetime ≤ now; update_true_frame — when it returns true the primary block is unchanged and the block list differs only in the present hop-count (exactly +1, no saturation/wrap), bundle-age (exactly + residence time) and previous-node block. Tie to the code: the real update_extensions under the mock clock hook vs the model on all 65 536 (limit,count) pairs and boundary-biased combinations incl. residence times up to 2^128-1; return value and whole resulting bundle compared; the oracle is a third statement of the rule in u128 arithmetic; the three comparison expressions are re-extracted from the source and re-proved equal to what the model assumes on every run.",
+        note="Trusted: Lean kernel; axioms propext, Classical.choice, Quot.sound; the mock clock hook (cfg bp7_verif) returns the supplied time; Duration::as_millis floors.",
+        technique="Lean 4 proof (case analysis on the three steps; search-invariance lemma for updates of other block types) + differential correspondence check",
+        design="§6 C08"),
     "C13": dict(
         text="Lean 4 theorems: the ID is a function of (printed source, time, sequence number, fragment flag, offset-if-fragment) (id_depends_only); the converse is stated in full (IdInjective), refuted by the concrete K1 witness (id_not_injective, by decide) and proved for bundles with equal source EIDs (id_injective_same_source_partial) using that decimal printing is injective and dash-free; the status-report reference equals the ID (refbundle_eq_id). Tie to the code: id()/Display of the real crate vs model on adversarial pairs; the harness oracle flags every ID collision / split: collisions between different source strings are reported as KNOWN-FINDING id-separator-ambiguity, any other as VIOLATION.",
         note="Known finding K1 (not repaired): IDs are not injective across different source strings. Trusted: Lean kernel; axioms propext, Quot.sound; model of Display/to_string for u64 and EndpointID.",
